@@ -106,9 +106,14 @@ def execute(scn, keep_log=False, hook=None):
             if tos != 2 or tf != 0:
                 viol.append({'clause': 'group-header', 'rank': 1, 'msg': 'C-PG header TOS %d TF %d' % (tos, tf)})
             hit = None
-            for s in pending:
-                if s['cpgn'] == cpgn and s['data'] == pl:
-                    hit = s
+            # two submissions may carry identical content (1-byte groups): attribute the group to a submission
+            # made for this frame's source/destination/format if there is one
+            for want_key in (True, False):
+                for s in pending:
+                    if s['cpgn'] == cpgn and s['data'] == pl and (not want_key or (s['sa'], s['da'], s['ff']) == (sa, da, ff)):
+                        hit = s
+                        break
+                if hit is not None:
                     break
             if hit is None:
                 viol.append({'clause': 'phantom-group', 'rank': 1, 'msg': 'frame carries group %05X (%d bytes) that was not submitted (or twice)' % (cpgn, len(pl))})
